@@ -2,7 +2,7 @@
 (* Extension X08: named wait groups of a scope (app/modules/commonm/commservices/waits).
    ScopeWaitManager keeps one sync.WaitGroup per name, created on first use, and couples
    every Add / Done to the task counter of the scope it belongs to:
-       Add(name, 1)   cnt[name]++ and the scope gains a task
+       Add(name, d)   cnt[name] += d and the scope gains d tasks
        Done(name)     cnt[name]-- and the scope loses a task
        Wait(name)     returns when cnt[name] = 0
        scope.Wait()   returns when the scope has no task, i.e. when EVERY group is at zero
@@ -25,19 +25,20 @@ SumOver(f, S) == IF S = {} THEN 0 ELSE LET x == CHOOSE x \in S : TRUE IN f[x] + 
 Count(c, t) == IF t = Scope THEN SumOver(c, Names) ELSE c[t]
 \* waiters that are (still) blocked under counters c
 BlockedUnder(c, ws, g) == { i \in 1..Len(ws) : i \notin g /\ Count(c, ws[i]) > 0 }
-Step(c, ws, op, arg) ==
+Step(c, ws, op, arg, d) ==
     LET b == BlockedUnder(c, ws, gone) IN
     /\ cnt' = c /\ waiters' = ws
     /\ gone' = (1..Len(ws)) \ b          \* whoever is not blocked has returned (and never blocks again)
-    /\ hist' = Append(hist, [op |-> op, arg |-> arg, blocked |-> b])
+    /\ hist' = Append(hist, [op |-> op, arg |-> arg, d |-> d, blocked |-> b])
 Init == cnt = [n \in Names |-> 0] /\ waiters = <<>> /\ gone = {} /\ hist = <<>>
-Add(n) == /\ Len(hist) < MaxOps /\ cnt[n] < MaxCnt
-          /\ Step([cnt EXCEPT ![n] = @ + 1], waiters, "add", n)
+\* Add(name, d): d units at once (the scope gains d tasks)
+Add(n, d) == /\ Len(hist) < MaxOps /\ cnt[n] + d <= MaxCnt
+             /\ Step([cnt EXCEPT ![n] = @ + d], waiters, "add", n, d)
 Done(n) == /\ Len(hist) < MaxOps /\ cnt[n] > 0
-           /\ Step([cnt EXCEPT ![n] = @ - 1], waiters, "done", n)
+           /\ Step([cnt EXCEPT ![n] = @ - 1], waiters, "done", n, 1)
 Wait(t) == /\ Len(hist) < MaxOps /\ Len(waiters) < MaxWaiters
-           /\ Step(cnt, Append(waiters, t), "wait", t)
-Next == (\E n \in Names : Add(n) \/ Done(n)) \/ (\E t \in Targets : Wait(t))
+           /\ Step(cnt, Append(waiters, t), "wait", t, 0)
+Next == (\E n \in Names : (\E d \in 1..MaxCnt : Add(n, d)) \/ Done(n)) \/ (\E t \in Targets : Wait(t))
         \/ (Len(hist) = MaxOps /\ UNCHANGED vars)
 Spec == Init /\ [][Next]_vars
 \* ---- properties
